@@ -5,6 +5,7 @@ import copy
 import json
 import os
 import re
+import sys
 
 # ---------------------------------------------------------------- loading
 
@@ -235,8 +236,14 @@ class Facts:
                 # several targets of one package may define the same path
                 self.fns.setdefault(k, f)
             self.adts.update(c.adts)
-        self.closure_calls_inlined = inline_direct_closure_calls(self)
-        self.inlined = inline_new_helpers(self)
+        # splicing is a convenience for the rules; if it trips over an unforeseen body the rules still run, on the
+        # unspliced functions
+        self.closure_calls_inlined, self.inlined = 0, {}
+        try:
+            self.closure_calls_inlined = inline_direct_closure_calls(self)
+            self.inlined = inline_new_helpers(self)
+        except Exception as e:      # noqa
+            print("[facts] helper inlining skipped: %s: %s" % (type(e).__name__, e), file=sys.stderr)
 
     def owner_root(self, path):
         """the function a (possibly inlined helper's or closure's) path is accounted to"""
